@@ -53,6 +53,9 @@ def spec_items(tier):
         yield from build.enum_mdps(2, AS, 1, [F(-1), F(0)], [(), (1,)], [build.INIT_MENU[2][0], build.INIT_MENU[2][2]], [F(1)])
         yield from build.enum_mdps(2, AS, 1, [F(0), F(1)], [()], [build.INIT_MENU[2][0]], [F(9, 10)])      # sparse rewards: V* = 0 at non-absorbing states
         yield from sparse3(full=False)
+        # undiscounted and proper with rewards of either sign
+        yield from build.enum_mdps(2, AS, 1, [F(-1), F(1)], [(1,)], [build.INIT_MENU[2][0], build.INIT_MENU[2][2]], [F(1)],
+                                   nonpositive_when_undiscounted=False)
         yield from build.chain_mdps(3, [F(1)], [F(-1), F(0)])
     else:
         yield from build.enum_mdps(2, [('a',), ('b',), ('a', 'b')], 1, [F(-1), F(0), F(1)], [(), (1,), (0,)], build.INIT_MENU[2][:3:2],
@@ -60,6 +63,8 @@ def spec_items(tier):
         yield from build.chain_mdps(3, [F(9, 10), F(1)], [F(-1), F(0)])
         yield from build.enum_mdps(3, AS, 1, [F(-1)], [(2,)], [build.INIT_MENU[3][0], build.INIT_MENU[3][1]], [F(1)])
         yield from sparse3(full=True)
+        yield from build.enum_mdps(2, AS, 1, [F(-1), F(0), F(2)], [(1,), (0,)], [build.INIT_MENU[2][0], build.INIT_MENU[2][2]], [F(1)],
+                                   nonpositive_when_undiscounted=False)
 
 
 def sparse3(full):
@@ -111,7 +116,14 @@ def make_heuristic(kind, spec, V, mdp):
     A = spec.absorbing()
     g = spec.gamma
     if kind == 'bound':
-        c = float(max(F(0), spec.max_reward()) / (1 - g)) if g < 1 else 0.0
+        if g < 1:
+            c = float(max(F(0), spec.max_reward()) / (1 - g))
+        elif spec.max_reward() > 0:
+            c = float(max([F(0)] + [v for v in V if v != NEG_INF])) + 1.0      # undiscounted with positive rewards: a constant above every V*
+        else:
+            c = 0.0
+        if spec.n % 2 == 0:
+            return c        # a plain number is accepted as a constant heuristic
         return lambda s: c
     if kind == 'exact':
         return lambda s: float(V[mdp.s_of[s]])
@@ -125,7 +137,8 @@ def in_scope(spec):
         return False
     if spec.gamma < 1:
         return True
-    return spec.rewards_nonpositive() and refmdp.all_proper(spec, explicit_only=True)
+    # undiscounted: every deterministic policy reaches an (explicitly) absorbing state with probability 1; rewards of either sign
+    return refmdp.all_proper(spec, explicit_only=True)
 
 
 def fingerprint(res, mdp, spec):
